@@ -639,6 +639,7 @@ func cmdCheck(argv []string) int {
 		}
 		updateBaseline(id, ok)
 		updateSignatureBaseline(ld)
+		updateStructBaseline(ld)
 	}
 	if violations > 0 {
 		return 1
